@@ -550,3 +550,16 @@ def auth_scenarios(env):
     return dict(name='auth_scenarios', validates='the authorization layer of anemo-tower as built by RequireAuthorizationLayer on the real crate: the allow-list decision whatever other metadata the request carries, and that a refusal is EXACTLY the authorizer\'s response',
                 cases=cases, failed=fails, ok=not fails, props=['C20'],
                 clause='the wrapped service is invoked iff the authorizer accepted; the allow-list accepts exactly the listed authenticated senders (NotFound for others, InternalServerError without identity); a refused request receives exactly the authorizer\'s response')
+
+
+def hostile_requests(env):
+    """C06, application-level decode paths: odd route strings through anemo's Router, and undecodable bodies of every length for typed routes wired like
+    generated code (rpc::server::Rpc with the json and bincode codecs); sent by a connected anemo peer"""
+    got = _run('hostile_requests', {}, env, timeout=240)
+    fails = []
+    if got.get('panicked') or got.get('unanswered') or got.get('wrongly_accepted') or got.get('serving_stopped_after') or got.get('server_closed'):
+        fails.append(dict(scenario='hostile_requests', args={}, expected=dict(unanswered=[], wrongly_accepted=[], serving_stopped_after=None, server_closed=False,
+                                                                              note='every request is answered (an error status for an unknown route or an undecodable body) and the node keeps serving'), observed=got))
+    return dict(name='hostile_requests', validates='the router and the typed-RPC decode path (rpc/mod.rs, rpc/codec.rs, routing/mod.rs) on %s requests from a connected peer: odd and very long route strings, json bodies of the wrong type made of multi-byte characters at every length 0..=420, truncated / huge-length / invalid-UTF-8 bincode bodies'
+                % got.get('sent'), cases=int(got.get('sent') or 0), failed=fails, ok=not fails, props=['C06'],
+                clause='no request content can panic the node or make it stop serving: a malformed request affects only its own stream and is answered with an error')
